@@ -848,10 +848,9 @@ namespace awkward {
                                            stop - start,
                                            caches_);
     }
-    else if (start == 0  &&  stop == length_) {
-      return shallow_copy();
-    }
     else {
+      // also when the range is the whole array: the fields have to end up
+      // in the node classes that Form::getitem_range predicts
       ContentPtrVec contents;
       for (auto content : contents_) {
         contents.push_back(content.get()->getitem_range_nowrap(start, stop));
